@@ -16,11 +16,46 @@ from snakeoil.containers import RefCountingSet
 from .pigeonholes import PigeonHoledSlots
 
 
+class _PkgInstanceMap:
+    """Mapping keyed by pkg *instance*.
+
+    Pkgs compare equal by cpv regardless of the repo they come from; the
+    installed and the repo copy of a version (possibly in different slots)
+    are distinct entries of the plan, same as in PigeonHoledSlots.
+    """
+
+    __slots__ = ("_d",)
+
+    def __init__(self):
+        self._d = {}
+
+    def __setitem__(self, pkg, val):
+        self._d[id(pkg)] = (pkg, val)
+
+    def __getitem__(self, pkg):
+        return self._d[id(pkg)][1]
+
+    def __delitem__(self, pkg):
+        del self._d[id(pkg)]
+
+    def __contains__(self, pkg):
+        return id(pkg) in self._d
+
+    def __len__(self):
+        return len(self._d)
+
+    def get(self, pkg, default=None):
+        return self._d.get(id(pkg), (pkg, default))[1]
+
+    def items(self):
+        return list(self._d.values())
+
+
 class plan_state:
     def __init__(self):
         self.state = PigeonHoledSlots()
         self.plan = []
-        self.pkg_choices = {}
+        self.pkg_choices = _PkgInstanceMap()
         self.rev_blockers = {}
         self.blockers_refcnt = RefCountingSet()
         self.match_atom = self.state.find_atom_matches
